@@ -8,9 +8,15 @@ Open Scope Q_scope.
 Definition rtol6 : Q := 1 # 1000000.
 
 (* one call of iterfit: the data in the order given to it, numpy's argsort of the abscissae, and what came
-   back: sset.breakpoints, the returned mask (caller order), sset.value(grid)[0] *)
+   back: sset.breakpoints, the returned mask (caller order), sset.value(grid)[0], and sset.value(x)[0] for the caller's own
+   abscissae x IN THE CALLER'S ORDER (r_cx: entry j belongs to datum j of r_ds) *)
 Record run := mkRun {
-  r_ds : list datum; r_perm : list nat; r_bk : list Q; r_mask : list bool; r_curve : list Q }.
+  r_ds : list datum; r_perm : list nat; r_bk : list Q; r_mask : list bool; r_curve : list Q; r_cx : list Q }.
+
+(* the fitted curve at the caller's abscissae, caller's order: pointwise the spline of the model coefficients *)
+Definition curve_at_callers_x (gb : list Q) (k : nat) (c0 : list Q) (r : run) : bool :=
+  (length (r_cx r) =? length (r_ds r))%nat &&
+  all2 (close_rel rtol6) (r_cx r) (map (fun d => eval1 gb k c0 (dx d)) (r_ds r)).
 
 Inductive case :=
 | CIter (maxiter : nat) (lower upper : Q) (k : nat) (grid : list Q) (runs : list run).
@@ -66,7 +72,8 @@ Definition run_case (c : case) : Z :=
           | Some (c0, mw) =>
               let curve := map (eval1 gb k c0) grid in
               if forallb (fun r => all2 Bool.eqb (r_mask r) (unsort false (r_perm r) mw)
-                                   && all2 (close_rel rtol6) (r_curve r) curve) runs
+                                   && all2 (close_rel rtol6) (r_curve r) curve
+                                   && curve_at_callers_x gb k c0 r) runs
               then 0%Z
               else if borderline fit_fast (S maxiter) gb k lower upper sorted (initial_mask sorted) then 8%Z else 2%Z
           end
@@ -75,7 +82,7 @@ Definition run_case (c : case) : Z :=
 
 Definition run_cases : list case -> list Z := map run_case.
 
-(* replay aid: the model's sorted mask, number of rejected points, and per run (mask ok, curve ok) *)
+(* replay aid: the model's sorted mask, number of rejected points, and per run (mask ok, curve ok on the grid and at the caller's x) *)
 Definition diagnose (c : case) : option (list bool * list (bool * bool)) :=
   match c with
   | CIter maxiter lower upper k grid runs =>
@@ -88,7 +95,8 @@ Definition diagnose (c : case) : option (list bool * list (bool * bool)) :=
           | None => None
           | Some (c0, mw) =>
               Some (mw, map (fun r => (all2 Bool.eqb (r_mask r) (unsort false (r_perm r) mw),
-                                       all2 (close_rel rtol6) (r_curve r) (map (eval1 gb k c0) grid))) runs)
+                                       all2 (close_rel rtol6) (r_curve r) (map (eval1 gb k c0) grid)
+                                       && curve_at_callers_x gb k c0 r)) runs)
           end
       end
   end.
